@@ -27,24 +27,22 @@ Record c16_case := mkC16 {
 Definition world_eqb (a b : world) : bool :=
   forallb (fun n => list_eqb value_eqb (coll_docs a n) (coll_docs b n)) ["c"; "o"; "t"].
 
-Fixpoint has_stage (name : string) (stages : list value) : bool :=
-  match stages with
-  | [] => false
-  | VDoc fs :: r => has_key name fs
-                    || existsb (fun kv => match snd kv with
-                                          | VDoc subs => (fst kv =? "$facet")
-                                                         && existsb (fun tp => match snd tp with
-                                                                               | VArr ss => (fix go (l : list value) : bool :=
-                                                                                               match l with
-                                                                                               | [] => false
-                                                                                               | VDoc sf :: l' => has_key name sf || go l'
-                                                                                               | _ :: l' => go l'
-                                                                                               end) ss
-                                                                               | _ => false end) subs
-                                          | _ => false end) fs
-                    || has_stage name r
-  | _ :: r => has_stage name r
+(* does an operator of that name occur anywhere in the value (at any $facet depth)? *)
+Fixpoint mentions (name : string) (v : value) {struct v} : bool :=
+  match v with
+  | VDoc fs => (fix go (fs : list (string * value)) : bool :=
+                  match fs with
+                  | [] => false
+                  | (k, x) :: fs' => (k =? name) || mentions name x || go fs'
+                  end) fs
+  | VArr xs => (fix go (xs : list value) : bool :=
+                  match xs with
+                  | [] => false
+                  | x :: xs' => mentions name x || go xs'
+                  end) xs
+  | _ => false
   end.
+Definition has_stage (name : string) (stages : list value) : bool := mentions name (VArr stages).
 
 Definition res_same (a b : res (list value)) : bool :=
   match a, b with
